@@ -56,6 +56,8 @@ pub fn build_text(c: &Value) -> String {
     lines.push(String::new());
     lines.push("- it [i](2)".into());
     lines.push("  more [j](2)".into());
+    lines.push("- k [wra".into());
+    lines.push("  pped](2)".into());
     lines.push(String::new());
     lines.push("> [q](2)".into());
     lines.push(String::new());
@@ -177,7 +179,30 @@ fn run_case(c: &Value) -> Value {
         }
     }
     let _ = cl.exit_and_join(Duration::from_secs(10));
-    json!({"ev":"Pos","case":c,"def":def,"prep":prep,"ren":ren,"errors":errors,"ref_lines":ref_lines,"hint_lines":hint_lines,
+    // the same question asked the way Helix asks it with the cursor resting on a line: the range runs from
+    // that line into the start of the next one
+    let mut hstate: HashMap<String, String> = HashMap::new();
+    hstate.insert("1".into(), text.clone());
+    hstate.insert("2".into(), "# Two\n".into());
+    let mut hx = Client::start_named(hstate, Default::default(), Some("helix".to_string()));
+    let mut helix_list: Vec<u64> = vec![];
+    let mut helix_inline: Vec<u64> = vec![];
+    let mut helix_section: Vec<u64> = vec![];
+    for line in 0..=last + 1 {
+        let a = rq(&mut hx, &mut id, "textDocument/codeAction", json!({"textDocument":{"uri":u1},"range":{"start":{"line":line,"character":0},"end":{"line":line + 1,"character":0}},"context":{"diagnostics":[]}}));
+        let kinds: Vec<String> = a.as_array().map(|x| x.iter().filter_map(|k| k["kind"].as_str().map(|s| s.to_string())).collect()).unwrap_or_default();
+        if kinds.iter().any(|k| k == "refactor.rewrite.list.type") {
+            helix_list.push(line);
+        }
+        if kinds.iter().any(|k| k == "refactor.inline.reference.section" || k == "refactor.inline.reference.quote") {
+            helix_inline.push(line);
+        }
+        if kinds.iter().any(|k| k == "refactor.rewrite.section.list") {
+            helix_section.push(line);
+        }
+    }
+    let _ = hx.exit_and_join(Duration::from_secs(10));
+    json!({"ev":"Pos","case":c,"helix_list_lines":helix_list,"helix_inline_lines":helix_inline,"helix_section_lines":helix_section,"def":def,"prep":prep,"ren":ren,"errors":errors,"ref_lines":ref_lines,"hint_lines":hint_lines,
            "sym_lines":sym_lines,"list_lines":list_lines,"inline_lines":inline_lines,"section_lines":section_lines,"text":text})
 }
 
